@@ -363,14 +363,12 @@ func VerifC12_filterStale() {
 // state, strictZero wins only from the undecided state, and the final status is explained by
 // the winners.
 func VerifC12_tryAckConcurrent() {
-	verifPreemptions(4)
+	verifPreemptions(3)
 	st := &shareAckState{offset: 5}
-	init := verifNondetInt32("init") // any prior status
-	a8, b8 := verifNondetInt8("statusA"), verifNondetInt8("statusB")
-	verifAssume(verifAnd(verifAnd(init >= 0, init <= 4), verifAnd(verifAnd(a8 >= 1, a8 <= 4), verifAnd(b8 >= 1, b8 <= 4))))
+	init := int32(verifChoose(5)) // any prior status
 	st.status.Store(init)
-	sA, sB := AckStatus(a8), AckStatus(b8)
-	zA, zB := verifNondetBool("strictZeroA"), verifNondetBool("strictZeroB")
+	sA, sB := AckStatus(1+verifChoose(4)), AckStatus(1+verifChoose(4))
+	zA, zB := verifChoose(2) == 1, verifChoose(2) == 1
 	var okA, okB bool
 	done := make(chan struct{}, 2)
 	go func() { okA = st.tryAck(sA, zA); done <- struct{}{} }()
